@@ -74,7 +74,7 @@ def check_kind_exhaustiveness(ctx):
                 else:
                     walk(st.body, ctxvar)
                     walk(st.orelse, ctxvar)
-            elif isinstance(st, ast.Assign) and len(st.targets) == 1 and isinstance(st.targets[0], ast.Name) and st.targets[0].id == "elem":
+            elif isinstance(st, ast.Assign) and len(st.targets) == 1 and isinstance(st.targets[0], ast.Name):
                 k = _kind_of(st.value)
                 if k:
                     built["multi" if ctxvar else "single"].add(k)
